@@ -108,6 +108,8 @@ class PrinterModel:
                 return env['assoc']
             if e.attr in ('LEFT', 'RIGHT') and e.attr in self.opconsts:
                 return self.opconsts[e.attr]
+        if isinstance(e, ast.Call) and call_attr(e) == 'is_abs' and not e.args:
+            return bool(env.get('is_abs'))
         raise AnalysisError('pprint bracket test uses a construct the printer model does not know: %s' % src(e))
 
     def brackets(self, which, **env):
@@ -231,6 +233,11 @@ def rule_w1(repo):
         children.append((r['key'], r['priority'], 'UNARY' if r['arity'] == tb.UNARY else 'BINARY', lad.level[p[0].origin], r, p))
     children.append(('application', pm.prio_funappl, 'FUN_APPL', lad.level['comb'], None, None))
     children.append(('atom', pm.prio_atom, 'ATOM', lad.level['atom'], None, None))
+    # binders: `%x. t`, `!x. t`, ... are atoms of the grammar that end in an open `term`: written without brackets as an
+    # operand they swallow everything that follows (f = %x. x --> A is read as f = (%x. x --> A)), so they must always be bracketed
+    OPEN = 999
+    children.append(('lambda', pm.prio_binder, 'BINDER', OPEN, None, None))
+    children.append(('quantifier', pm.prio_binder, 'BINDER', OPEN, None, None))
     n_checked = 0
     for r in tb.rows:
         if r['arity'] == tb.CONST:
@@ -247,8 +254,14 @@ def rule_w1(repo):
         for side, idx, nt, which in sides:
             need(nt in lad.level, 'operand nonterminal %s of %s is not on the ladder' % (nt, p.origin))
             for ckey, q, kind, clev, crow, cprod in children:
-                bracketed = pm.brackets(which, q=q, kind=kind, p=r['priority'], assoc=r.get('assoc'))
+                bracketed = pm.brackets(which, q=q, kind=kind, p=r['priority'], assoc=r.get('assoc'), is_abs=ckey == 'lambda')
                 if bracketed:
+                    continue
+                if clev == OPEN:
+                    res.add('%s :: op(%s) :: %s :: child(%s)' % (OPERATOR, r['key'], side, ckey), False,
+                            'a %s is printed without brackets as the %s operand of `%s`: its body extends as far to the right as possible, so '
+                            'whatever follows the operator application is read as part of the body' % (ckey, side, r['ascii_op'].strip()),
+                            '%s:%d' % (OPERATOR, r['_line']))
                     continue
                 ok_t, how = _realisable(sig, tb, r, idx, crow)
                 if not ok_t:
@@ -276,7 +289,7 @@ def rule_w1(repo):
     fun_nt, arg_nt = comb_prods[0].symbols[0][0], comb_prods[0].symbols[1][0]
     for side, nt, which in (('fun', fun_nt, 'appl:fun_ast'), ('arg', arg_nt, 'appl:arg_ast')):
         for ckey, q, kind, clev, crow, cprod in children:
-            if pm.brackets(which, q=q, kind=kind, p=pm.prio_funappl, assoc=None):
+            if pm.brackets(which, q=q, kind=kind, p=pm.prio_funappl, assoc=None, is_abs=ckey == 'lambda'):
                 continue
             ok = clev <= lad.level[nt]
             res.add('%s :: application :: %s :: child(%s)' % (PPRINT, side, ckey), ok,
